@@ -110,6 +110,10 @@ def rule_register(model: Model):
         if okt:
             shp = _resolve(W.args[0], env)
             okt = False
+            if isinstance(shp, ast.Call) and norm(shp.func) == "list" and len(shp.args) == 1 and isinstance(shp.args[0], ast.Call) \
+                    and norm(shp.args[0].func) == "zip" and len(shp.args[0].args) == 2:
+                # list(zip(size_out, size_in)): the same pairs
+                okt = norm(_resolve(shp.args[0].args[0], env)) == "size_out" and norm(_resolve(shp.args[0].args[1], env)) == "size_in"
             if isinstance(shp, ast.ListComp) and len(shp.generators) == 1 and isinstance(shp.elt, ast.Tuple) and len(shp.elt.elts) == 2 \
                     and isinstance(shp.generators[0].target, ast.Tuple) and len(shp.generators[0].target.elts) == 2 \
                     and isinstance(shp.generators[0].iter, ast.Call) and norm(shp.generators[0].iter.func) == "zip" and len(shp.generators[0].iter.args) == 2:
